@@ -247,3 +247,47 @@ def random_mcu_knobs(rng, fault=False, stalls=True):
         k["stall_prob"] = rng.choice([0.001, 0.005, 0.02])
         k["stall_us"] = (5000, 60000) if fault else (100, 5000)
     return k
+
+
+class Injector:
+    """A bare chip model scripted by the harness (no driver): puts arbitrary packets on the air."""
+
+    def __init__(self, world, name="inj", channel=76, rate=1, aw=5, crc=2, esb=True, dpl=True):
+        self.w = world
+        self.radio = world.radio(name)
+        r = self.radio
+        r.r[0] = 0x02 | ({0: 0, 1: 0x08, 2: 0x0C}[crc])
+        r.r[1] = 0x3F if esb else 0
+        r.r[4] = 0x10 if esb else 0          # ARC = 0: one attempt per upload
+        r.r[2] = 0x01
+        r.r[3] = aw - 2
+        r.r[5] = channel
+        r.r[6] = {1: 0x07, 2: 0x0F, 250: 0x27}[rate]
+        r.r[0x1C] = 0x3F if dpl else 0
+        r.r[0x1D] = 0x05 if dpl else 0x01
+        self.esb = esb
+
+    def send(self, addr, payload, want_ack=False, settle=True):
+        """Transmit one packet; returns True when an ACK was requested and received."""
+        r = self.radio
+        sim = self.w.sim
+        r.a[0x10][: len(addr)] = addr
+        r.a[0x0A][: len(addr)] = addr
+        r.flags = 0
+        r.tx_fifo.clear()
+        r.rx_fifo.clear()
+        r.set_ce(False)
+        r.xfer(bytes([0xA0 if want_ack else 0xB0]) + bytes(payload))
+        r.set_ce(True)
+        for _ in range(200000):
+            if not r.txing and not r.tx_fifo or r.flags & 0x10:
+                break
+            sim.advance(20_000)
+        r.set_ce(False)
+        ok = bool(r.flags & 0x20)
+        if settle:
+            for _ in range(2000):
+                if self.w.air.idle() and not any(x.acking for x in self.w.air.radios):
+                    break
+                sim.advance(20_000)
+        return ok
